@@ -1,1 +1,204 @@
-import CnlModel.Basic
+import CnlProofs.Fraction
+/-!
+# C16 — `cnl::fraction` follows the rationals
+
+`Frac` is a `cnl::fraction<nt, dt>` over built-in integer component types of **any** width and
+signedness; `Cnl.Fraction.{add, sub, mul, div, neg, pos, cmp, reduce, canonical, hashWith}` transcribe
+`_impl/fraction/{operators, reduce, canonical, gcd, hash}.h` into `CnlModel.CInt` arithmetic
+(promotion, usual arithmetic conversions, wrap-around and undefined signed overflow included).
+`val a = numerator / denominator : Rat` (core `Rat`).
+
+The property's restriction "non-zero denominators and operands small enough that the cross products
+fit" is the explicit guard of each theorem (`CnlSpec.Fraction`): every operand is representable in
+the common type the built-in operator converts it to and every mathematical product / sum / negation
+is representable in the type C++ computes it in.  Under the guard each theorem says the C++
+evaluation is *defined* (the model returns `ok`, no UB) **and** denotes the exact rational result.
+
+* `add_value sub_value mul_value div_value neg_value pos_value` — `val (a ⊕ b) = val a ⊕ val b`, with the
+  deduced component types of the result;
+* `cmp_correct` — all six comparison operators return the order / equality of the rational values,
+  **for denominators of either sign** (this is the theorem the unrepaired tree violated — see
+  `order_unrepaired_refuted` and findings/C16.json; the model follows the repaired `operators.h`);
+* `reduce_correct`, `canonical_correct` — value preserved, coprime parts, positive denominator;
+  `canonical_lowest_terms`, `canonical_unique` — the canonical form *is* the lowest-terms representation of
+  the value, so fractions of one type with equal values have equal canonical forms;
+* `hash_eq_of_value_eq`, `hash_eq_of_compare_equal` — hence equal `std::hash` values, **for every hash
+  function on the components** and every word size;
+* `to_scalar_exact` — the conversion expression `static_cast<S>(numerator) / static_cast<S>(denominator)`
+  over an exact scalar is the value.  The IEEE rounding of that expression (`Fraction.toFloat`) is executable
+  and tied to the code by the correspondence check only — it is not the subject of a theorem here
+  (no `CFloat` theory of rounding yet); likewise `abs` is modelled and tied, without a theorem.
+
+`std::gcd` enters through the libstdc++ transcription `Fraction.gcd` (binary gcd itself taken as `Nat.gcd`);
+within `ReduceGuard` (its precondition) it is `Int.gcd`.
+-/
+namespace Cnl.C16
+open Cnl Cnl.Fraction Cnl.FractionSpec Cnl.FractionProofs
+
+/-- the rational number a fraction denotes -/
+def val (a : Frac) : Rat := value a.n a.d
+
+/-! ## arithmetic -/
+
+theorem add_value (a b : Frac) (ha : a.d ≠ 0) (hb : b.d ≠ 0) (g : AddGuard a.num a.den b.num b.den) :
+    ∃ c, add a b = .ok c ∧ c.nt = usualArith (usualArith a.nt b.dt) (usualArith b.nt a.dt)
+      ∧ c.dt = usualArith a.dt b.dt ∧ c.d ≠ 0 ∧ val c = val a + val b := by
+  obtain ⟨g1, g2, g3, g4⟩ := g
+  refine ⟨⟨_, _, a.n * b.d + b.n * a.d, a.d * b.d⟩, ?_, rfl, rfl, Int.mul_ne_zero ha hb, value_add _ _ _ _ ha hb⟩
+  unfold add
+  rw [cBin_mul_exact _ _ g1, cBin_mul_exact _ _ g2]
+  simp only [Res.bind_ok]
+  rw [cBin_add_exact _ _ g3, cBin_mul_exact _ _ g4]
+  rfl
+
+theorem sub_value (a b : Frac) (ha : a.d ≠ 0) (hb : b.d ≠ 0) (g : SubGuard a.num a.den b.num b.den) :
+    ∃ c, sub a b = .ok c ∧ c.nt = usualArith (usualArith a.nt b.dt) (usualArith b.nt a.dt)
+      ∧ c.dt = usualArith a.dt b.dt ∧ c.d ≠ 0 ∧ val c = val a - val b := by
+  obtain ⟨g1, g2, g3, g4⟩ := g
+  refine ⟨⟨_, _, a.n * b.d - b.n * a.d, a.d * b.d⟩, ?_, rfl, rfl, Int.mul_ne_zero ha hb, value_sub _ _ _ _ ha hb⟩
+  unfold sub
+  rw [cBin_mul_exact _ _ g1, cBin_mul_exact _ _ g2]
+  simp only [Res.bind_ok]
+  rw [cBin_sub_exact _ _ g3, cBin_mul_exact _ _ g4]
+  rfl
+
+theorem mul_value (a b : Frac) (ha : a.d ≠ 0) (hb : b.d ≠ 0) (g : MulGuard a.num a.den b.num b.den) :
+    ∃ c, mul a b = .ok c ∧ c.nt = usualArith a.nt b.nt ∧ c.dt = usualArith a.dt b.dt ∧ c.d ≠ 0
+      ∧ val c = val a * val b := by
+  obtain ⟨g1, g2⟩ := g
+  refine ⟨⟨_, _, a.n * b.n, a.d * b.d⟩, ?_, rfl, rfl, Int.mul_ne_zero ha hb, value_mul _ _ _ _⟩
+  unfold mul
+  rw [cBin_mul_exact _ _ g1, cBin_mul_exact _ _ g2]
+  rfl
+
+/-- division: the divisor's numerator must not be zero (it becomes a factor of the denominator) -/
+theorem div_value (a b : Frac) (ha : a.d ≠ 0) (hbn : b.n ≠ 0) (g : DivGuard a.num a.den b.num b.den) :
+    ∃ c, div a b = .ok c ∧ c.nt = usualArith a.nt b.dt ∧ c.dt = usualArith a.dt b.nt ∧ c.d ≠ 0
+      ∧ val c = val a / val b := by
+  obtain ⟨g1, g2⟩ := g
+  refine ⟨⟨_, _, a.n * b.d, a.d * b.n⟩, ?_, rfl, rfl, Int.mul_ne_zero ha hbn, value_div _ _ _ _⟩
+  unfold div
+  rw [cBin_mul_exact _ _ g1, cBin_mul_exact _ _ g2]
+  rfl
+
+/-- unary minus: the numerator is promoted and negated, the denominator keeps its type -/
+theorem neg_value (a : Frac) (g : NegFits a.num) :
+    ∃ c, neg a = .ok c ∧ c.nt = promote a.nt ∧ c.dt = a.dt ∧ c.d = a.d ∧ val c = -val a := by
+  refine ⟨⟨_, _, -a.n, a.d⟩, ?_, rfl, rfl, rfl, value_neg _ _⟩
+  unfold neg
+  rw [cNeg_exact _ g]
+  rfl
+
+/-- unary plus: both components are promoted -/
+theorem pos_value (a : Frac) (hn : a.nt.InRange a.n) (hd : a.dt.InRange a.d) :
+    ∃ c, pos a = .ok c ∧ c.nt = promote a.nt ∧ c.dt = promote a.dt ∧ c.d = a.d ∧ val c = val a := by
+  refine ⟨⟨_, _, a.n, a.d⟩, ?_, rfl, rfl, rfl, rfl⟩
+  unfold pos
+  rw [cPos_exact a.num (inRange_promote _ _ hn), cPos_exact a.den (inRange_promote _ _ hd)]
+  rfl
+
+/-! ## comparison -/
+
+/-- `== != < > <= >=` return the equality / order of the rational values, whatever the signs of the
+denominators -/
+theorem cmp_correct (op : CmpOp) (a b : Frac) (wa : a.dt.InRange a.d) (wb : b.dt.InRange b.d)
+    (ha : a.d ≠ 0) (hb : b.d ≠ 0) (g : CmpGuard a.num a.den b.num b.den) :
+    cmp op a b = .ok (cmpRat op (val a) (val b)) := by
+  obtain ⟨g1, g2, g3⟩ := g
+  unfold cmp
+  rw [cBin_mul_exact _ _ g1, cBin_mul_exact _ _ g2]
+  simp only [Res.bind_ok, Res.pure_eq]
+  rw [cCmp_exact _ _ _ g3, negDen_eq a wa, negDen_eq b wb]
+  unfold val
+  rw [cmpRat_value op _ _ _ _ ha hb]
+  rfl
+
+/-- the expression of the unrepaired tree is wrong as soon as exactly one denominator is negative:
+`fraction<int8>(-128, -128) < fraction<int8>(-128, 5)` was `true` although `1 < -25.6` is false -/
+theorem order_unrepaired_refuted :
+    ∃ a b : Frac, a.d ≠ 0 ∧ b.d ≠ 0 ∧ CmpGuard a.num a.den b.num b.den
+      ∧ cmpUnrepaired .lt a b = .ok true ∧ cmpRat .lt (val a) (val b) = false :=
+  ⟨⟨i8, i8, -128, -128⟩, ⟨i8, i8, -128, 5⟩, by decide, by decide, by decide, by decide, by
+    unfold val
+    rw [cmpRat_value _ _ _ _ _ (by decide) (by decide)]
+    decide⟩
+
+/-! ## reduce, canonical -/
+
+theorem reduce_correct (a : Frac) (g : ReduceGuard a.num a.den) :
+    ∃ r, reduce a = .ok r ∧ r.d ≠ 0 ∧ val r = val a ∧ Coprime r.n r.d :=
+  ⟨_, reduce_exact a g, reduced_den_ne_zero _ _ g.dnz, reduced_value _ _ g.dnz, reduced_coprime _ _ g.dnz⟩
+
+/-- the canonical form is the lowest-terms representation of the value (numerator and denominator of
+the normalised rational), in the promoted component types -/
+theorem canonical_lowest_terms (a : Frac) (g : CanonGuard a.num a.den) :
+    canonical a = .ok ⟨usualArith a.nt (commonTy a.nt a.dt), usualArith a.dt (commonTy a.nt a.dt),
+      (val a).num, (val a).den⟩ :=
+  canonical_exact a g
+
+theorem canonical_correct (a : Frac) (g : CanonGuard a.num a.den) :
+    ∃ r, canonical a = .ok r ∧ 0 < r.d ∧ val r = val a ∧ Coprime r.n r.d :=
+  ⟨_, canonical_exact a g, lowestTerms_pos _ _, lowestTerms_value _ _, lowestTerms_coprime _ _⟩
+
+/-- equal values ⇒ equal canonical forms (fractions of one type) -/
+theorem canonical_unique (a b : Frac) (hn : a.nt = b.nt) (hd : a.dt = b.dt)
+    (ga : CanonGuard a.num a.den) (gb : CanonGuard b.num b.den) (hv : val a = val b) :
+    canonical a = canonical b := by
+  rw [canonical_lowest_terms a ga, canonical_lowest_terms b gb, hv, hn, hd]
+
+/-! ## hash -/
+
+/-- equal values ⇒ equal hashes, for every word size and every pair of component hash functions -/
+theorem hash_eq_of_value_eq (w : Nat) (hashN hashD : Int → Nat) (a b : Frac) (hn : a.nt = b.nt) (hd : a.dt = b.dt)
+    (ga : CanonGuard a.num a.den) (gb : CanonGuard b.num b.den) (hv : val a = val b) :
+    hashWith w hashN hashD a = hashWith w hashN hashD b := by
+  unfold hashWith
+  rw [canonical_unique a b hn hd ga gb hv, hn, hd]
+
+/-- the `std::hash` contract: fractions that compare equal with `operator==` hash equally -/
+theorem hash_eq_of_compare_equal (w : Nat) (hashN hashD : Int → Nat) (a b : Frac) (hn : a.nt = b.nt) (hd : a.dt = b.dt)
+    (ga : CanonGuard a.num a.den) (gb : CanonGuard b.num b.den) (g : CmpGuard a.num a.den b.num b.den)
+    (heq : cmp .eq a b = .ok true) :
+    hashWith w hashN hashD a = hashWith w hashN hashD b := by
+  apply hash_eq_of_value_eq w hashN hashD a b hn hd ga gb
+  rw [cmp_correct .eq a b ga.dwf gb.dwf ga.dnz gb.dnz g] at heq
+  simpa [cmpRat] using heq
+
+/-! ## conversion to floating point -/
+
+/-- `static_cast<S>(numerator) / static_cast<S>(denominator)` over an exact scalar is the value -/
+theorem to_scalar_exact (a : Frac) : toScalarExact a = val a := rfl
+
+/-! ## Non-vacuity: the hypotheses are satisfiable on non-trivial instances, and the model computes -/
+
+-- 8-bit components: -7/-12 + 5/-9 = (-7·-9 + 5·-12)/(-12·-9) = 3/108, computed in `int`
+example : AddGuard (i8, -7) (i8, -12) (i8, 5) (i8, -9) := by decide
+example : add ⟨i8, i8, -7, -12⟩ ⟨i8, i8, 5, -9⟩ = .ok ⟨i32, i32, 3, 108⟩ := by decide
+-- 32-bit components near the limit of the guard, and just beyond it (undefined behaviour)
+example : MulGuard (i32, 46341) (i32, -46340) (i32, 46340) (i32, 46340) := by decide
+example : mul ⟨i32, i32, 46341, -46340⟩ ⟨i32, i32, 46341, 46340⟩ = .ub .signedOverflow := by decide
+example : DivGuard (i16, 100) (i16, -3) (i16, -7) (i16, 9) := by decide
+example : SubGuard (i64, 3) (i64, 4) (i32, 1) (i32, -4) := by decide
+example : NegFits (i8, -128) := by decide
+example : ¬ NegFits (i32, -2147483648) := by decide
+-- the comparison guard with denominators of different signs; the repaired operator's answer
+example : CmpGuard (i8, -128) (i8, -128) (i8, -128) (i8, 5) := by decide
+example : cmp .lt ⟨i8, i8, -128, -128⟩ ⟨i8, i8, -128, 5⟩ = .ok false := by decide
+example : cmp .ge ⟨i8, i8, 1, 2⟩ ⟨i8, i8, 1, -3⟩ = .ok true := by decide
+example : cmp .eq ⟨i8, i8, 2, -4⟩ ⟨i8, i8, -64, -128⟩ = .ok false := by decide
+example : cmp .eq ⟨i8, i8, 2, -4⟩ ⟨i8, i8, 64, -128⟩ = .ok true := by decide
+-- reduce / canonical / hash
+example : canonical ⟨i16, i16, 6, -8⟩ = .ok ⟨i32, i32, -3, 4⟩ := by decide
+example : reduce ⟨i16, i16, 6, -8⟩ = .ok ⟨i32, i32, 3, -4⟩ := by decide
+example : canonical ⟨i8, i8, -128, -128⟩ = .ok ⟨i32, i32, 1, 1⟩ := by decide
+example : canonical ⟨i32, i32, -2147483648, 2⟩ = .ub .signedOverflow := by decide
+example : hashWith 64 (stdHashInt 64) (stdHashInt 64) ⟨i8, i8, 2, -4⟩
+    = hashWith 64 (stdHashInt 64) (stdHashInt 64) ⟨i8, i8, -3, 6⟩ := by decide +kernel
+example : CanonGuard (i16, 6) (i16, -8) := by
+  refine { nbits := ?_, dbits := ?_, nwf := ?_, dwf := ?_, dnz := ?_, cn := ?_, cd := ?_, cna := ?_, cda := ?_,
+           qn := ?_, qng := ?_, qd := ?_, qdg := ?_, negn := ?_, negd := ?_ } <;> decide
+example : CanonGuard (i32, -2147483647) (i64, -9223372036854775807) := by
+  refine { nbits := ?_, dbits := ?_, nwf := ?_, dwf := ?_, dnz := ?_, cn := ?_, cd := ?_, cna := ?_, cda := ?_,
+           qn := ?_, qng := ?_, qd := ?_, qdg := ?_, negn := ?_, negd := ?_ } <;> decide +kernel
+
+end Cnl.C16
